@@ -18,6 +18,9 @@ Part B (E2, through the wire): the same histories at small depth as real frames 
         traffic, announcements, deletions and renumbering: from the moment the reference knows a path, every
         held packet must have appeared on the wire towards a current next hop (once), and the probes show that
         later packets do.
+        Where BOUNDS says so, application traffic for networks WITH a known path is an operation of the history as well
+        (it leaves at once; what the node may remember from having sent must not outlive the next change of the
+        knowledge), and the node shares MAC octets with routers of its other LAN (addresses are unique per LAN only).
 """
 import inspect
 import itertools
@@ -63,8 +66,17 @@ RULE = ("part A: BFS over all histories of the alphabet {learn(port, router, dne
         "reference effect for all kinds (source network now via that router, newest wins, nothing held for it any more) and no "
         "kind is part of the state -- plus send(dnet) = the application hands the node a packet for a network the "
         "reference knows no path to (the node has to hold it and ask Who-Is-Router-To-Network), at most `held` packets held at a "
-        "time, interleaved with everything else in every order; state = the same cache form + (adapter net, configured flag) in "
-        "adapter-dict order + packets held per destination network (node and reference); after every operation the frames the "
+        "time, interleaved with everything else in every order; in the universes marked 'sends over known paths' in BOUNDS send(dnet) "
+        "is also enabled for a network the reference knows a path to (the packet has to leave at once towards the current next hop; "
+        "nothing in the knowledge changes, but it happened before whatever the history learns or forgets next, so that anything the "
+        "node remembers from having sent is in place when the knowledge changes, and the later sends and probes must follow the "
+        "new knowledge); in the universes marked 'shared MACs' the node is station X on LAN 0 and station R0 on LAN 1 while the "
+        "routers on LAN 0 are R0, R1(, R2) and on LAN 1 X, R1(, R2) -- MAC addresses are unique per LAN only: on either LAN one "
+        "router carries the MAC the node itself has on its other port, the other routers have equal MACs on both LANs, no LAN has "
+        "a MAC twice; elsewhere the node is station 1 / 2 and shares no MAC with a router; "
+        "state = the same cache form + (adapter net, configured flag) in "
+        "adapter-dict order + packets held per destination network (node and reference) + the set of destination networks the "
+        "application has sent to over a known path (an account of the history kept by the harness); after every operation the frames the "
         "node put on its LANs are read by an independent NPCI parser: a held packet may only appear towards a current next hop "
         "of the reference, once, and after an operation that names a destination as reachable (announcement, routed traffic) "
         "nothing may be held for it any more; every state gets one probe per destination network (+ one never announced) = the "
@@ -90,6 +102,10 @@ ASSUMPTIONS = [
     "forwarding is not driven except for the Who-Is-Router-To-Network it passes on to its other port, which is not judged",
     "Network-Number-Is is sent as a local broadcast with the 'learned' flag (0); a port with a configured number is never "
     "asked to renumber",
+    "a router never has the MAC the node itself uses on the same LAN (duplicate addresses on one LAN are outside the statement); "
+    "the node's MACs on its two ports differ (with equal MACs no router could share one without duplicating it on a LAN); "
+    "sends over known paths and shared MACs are not crossed with the two-destination universes searched to closure (cost: the "
+    "account of networks sent to multiplies their states by 4)",
     "the 'random sequences of length 300' of the quantifier are replaced by closure (frontier emptied) of smaller universes",
     "RouterInfo.snet going stale after renumbering is not judged: nothing reads it",
     "router status (update_router_status, busy/available) is not part of the statement and is not exercised",
@@ -97,16 +113,22 @@ ASSUMPTIONS = [
 BOUNDS = {
     "quick": "part A: 2 ports x 3 routers x 4 dnets, sets of <=2 dnets, pool of 3 network numbers, depth<=4; "
              "2 ports (one number unknown) x 2 routers x 3 dnets, every subset, to closure (frontier emptied); "
-             "part B: 3 node variants x (3 routers x 3 dnets, sets of <=2, <=2 packets held, source networks revealed by 2 kinds of "
+             "part B: 3 node variants x (3 routers x 3 dnets, sets of <=2, <=2 packets held, sends over known paths, shared MACs, "
+             "source networks revealed by 2 kinds of "
              "frame: application NPDU / routed Who-Is-Router-To-Network) depth<=3, 4 station probes per state; "
+             "3 node variants x (2 routers x 1 dnet, <=2 packets held, sends over known paths, shared MACs, 5 kinds of frame) to "
+             "closure, 2 probes per state; "
              "node with both numbers configured x (2 routers x 2 dnets, every subset, <=2 packets held, source networks revealed by "
              "5 kinds of frame: + Reject-Message-To-Network, Initialize-Routing-Table-Ack, proprietary message) to closure, "
              "3 probes per state",
     "thorough": "part A: 2 ports x 3 routers x 4 dnets, every non-empty subset, depth<=5; 2 ports x 3 routers x 3 dnets "
                 "to closure; 2 ports (one unknown) x 2 routers x 3 dnets to closure; "
-                "part B: 3 node variants x (3 routers x 4 dnets, every subset, <=2 packets held, source networks revealed by 3 kinds "
+                "part B: 3 node variants x (3 routers x 4 dnets, every subset, <=2 packets held, sends over known paths, shared MACs, "
+                "source networks revealed by 3 kinds "
                 "of frame: application NPDU / routed Who-Is-Router-To-Network / routed Reject-Message-To-Network) depth<=3 with "
-                "station + broadcast probes (10 per state); 3 node variants x (2 routers x 2 dnets, every subset, <=2 packets held, "
+                "station + broadcast probes (10 per state); 3 node variants x (3 routers x 1 dnet, <=2 packets held, sends over known "
+                "paths, shared MACs, 5 kinds of frame) to closure with 2 probes per state; "
+                "3 node variants x (2 routers x 2 dnets, every subset, <=2 packets held, "
                 "5 kinds of frame: + Initialize-Routing-Table-Ack, proprietary message) to closure with 3 probes "
                 "per state; 3 node variants x (2 routers x 3 dnets, every subset, no held packets, 3 kinds of frame) to closure with "
                 "4 probes per state",
@@ -137,14 +159,38 @@ HELD_ONLY = ("held-traffic-not-released", "probe:later-traffic-queued-behind-hel
 
 # ----------------------------------------------------------------------------- universes / alphabets
 
-def universe(name, start, pool, n_routers, dnets, max_set, seed=0, depth=5, held=0, variants=None, sadr=SADR_CORE):
+def universe(name, start, pool, n_routers, dnets, max_set, seed=0, depth=5, held=0, variants=None, sadr=SADR_CORE,
+             shared_macs=False, known_sends=False):
     base = 0x0A + 0x10 * (seed % 4)
-    return {"name": name, "start": list(start), "pool": list(pool),
-            "routers": [bytes([base + i]).hex() for i in range(n_routers)],
-            "dnets": list(dnets), "max_set": max_set, "descending": bool(seed % 2), "depth": depth,
-            "held": held,        # part B: at most this many application packets of the history held by the node at a time
-            "variants": None if variants is None else list(variants),     # part B: node variants (None = all)
-            "sadr": list(sadr)}  # part B: the kinds of routed frame that reveal a source network
+    u = {"name": name, "start": list(start), "pool": list(pool),
+         "routers": [bytes([base + i]).hex() for i in range(n_routers)],
+         "dnets": list(dnets), "max_set": max_set, "descending": bool(seed % 2), "depth": depth,
+         "held": held,        # part B: at most this many application packets of the history held by the node at a time
+         "variants": None if variants is None else list(variants),     # part B: node variants (None = all)
+         "sadr": list(sadr),  # part B: the kinds of routed frame that reveal a source network
+         # part B: application traffic for networks WITH a known path is an operation of the history too
+         "known_sends": bool(known_sends)}
+    if shared_macs:
+        # part B: MAC addresses are unique per LAN only.  The node is station X on LAN 0 and station R0 on LAN 1; the routers
+        # on LAN 0 are R0, R1, .. and the routers on LAN 1 are X, R1, ..: on either LAN one router has the MAC the node itself
+        # uses on its OTHER port, the remaining routers have the same MACs on both LANs, and no LAN has a MAC twice
+        extra = bytes([base + n_routers]).hex()
+        if bytes.fromhex(extra) in (ANNOUNCER_MAC, REMOTE_MAC, PROBE_MAC):
+            raise HarnessError("C19: the universe's MAC octets collide with the tester's")
+        u["node_macs"] = [extra, u["routers"][0]]
+        u["port_routers"] = [list(u["routers"]), [extra] + u["routers"][1:]]
+    return u
+
+
+def node_macs(u):
+    """The node's own MAC on port 0 / port 1 (octets)."""
+    return tuple(bytes.fromhex(m) for m in u["node_macs"]) if u.get("node_macs") else NODE_MACS
+
+
+def routers_on(u, port):
+    """The routers that can speak on the LAN of this port (part A and universes without shared MACs: the same everywhere)."""
+    pr = u.get("port_routers")
+    return pr[port] if pr else u["routers"]
 
 
 def subsets(items, max_size=None):
@@ -160,23 +206,23 @@ def enabled_ops(u, routes, nets, wire=False, can_renumber=None):
     ops = []
     ports = range(len(nets))
     for p in ports:
-        for r in u["routers"]:
+        for r in routers_on(u, p):
             for ds in subsets(u["dnets"], u["max_set"]):
                 ops.append(("learn", p, r, ds))
     if wire:
         for flavour in u.get("sadr", ("apdu",)):
             for p in ports:
-                for r in u["routers"]:
+                for r in routers_on(u, p):
                     for d in u["dnets"]:
                         ops.append(("sadr", p, r, d, flavour))
     for p in ports:
-        for r in u["routers"]:
+        for r in routers_on(u, p):
             ops.append(("forget_router", p, r))
     for p in ports:
         for ds in subsets(u["dnets"], u["max_set"]):
             ops.append(("forget_dnets", p, ds))
     for p in ports:
-        for r in u["routers"]:
+        for r in routers_on(u, p):
             # the combined form "forget (router, destinations)": every non-empty subset of what the router is credited
             # with, and every destination list of the universe whoever its members are credited to (another router,
             # nobody), for routers with and without a record
@@ -202,7 +248,7 @@ def op_class(op, routes, nets):
     """Coarse class of an operation in a state: part of the failure signature and of the outcome labels."""
     kind = op[0]
     if kind == "send":
-        return "send"
+        return "send-over-known-path" if any(routes.lookup(n, op[1]) is not None for n in nets) else "send"
     snet = nets[op[1]]
     if kind in ("learn", "sadr"):
         ds = op[3] if kind == "learn" else (op[3],)
@@ -589,10 +635,14 @@ def b_build(variant, u):
     ctx.app = AppSide()
     bind(ctx.app, ctx.nsap)
     nets = VARIANTS[variant]
-    ctx.nodes = [Node(LocalStation(NODE_MACS[i]), ctx.lans[i]) for i in (0, 1)]
+    ctx.macs = node_macs(u)
+    for p in (0, 1):
+        if ctx.macs[p].hex() in routers_on(u, p):
+            raise HarnessError("C19 part B: a router has the node's own MAC on the same LAN")
+    ctx.nodes = [Node(LocalStation(ctx.macs[i]), ctx.lans[i]) for i in (0, 1)]
     # the adapter bound last with an address becomes the local one: port 0
-    ctx.nsap.bind(ctx.nodes[1], nets[1], LocalStation(NODE_MACS[1]))
-    ctx.nsap.bind(ctx.nodes[0], nets[0], LocalStation(NODE_MACS[0]))
+    ctx.nsap.bind(ctx.nodes[1], nets[1], LocalStation(ctx.macs[1]))
+    ctx.nsap.bind(ctx.nodes[0], nets[0], LocalStation(ctx.macs[0]))
     ctx.adapters = [ctx.nsap.adapters[nets[0]], ctx.nsap.adapters[nets[1]]]
     if ctx.nsap.local_adapter is not ctx.adapters[0]:
         raise HarnessError("C19 part B: port 0 is not the local adapter")
@@ -616,7 +666,7 @@ def b_quiet(ctx):
     n = 0
     while wire.inflight:
         fr = wire.inflight[0]
-        if mac_of(fr.src) == NODE_MACS[ctx.lans.index(fr.net)].hex():
+        if mac_of(fr.src) == ctx.macs[ctx.lans.index(fr.net)].hex():
             wire.drop(0)
         else:
             wire.deliver(0)
@@ -639,7 +689,7 @@ def b_apply(ctx, real_nets, op, u):
     elif kind == "sadr":
         # a station (or router) on network op[3] is heard through router op[2]: the last hop carries SADR and no DADR
         flavour = sadr_flavour(op)
-        me = LocalStation(NODE_MACS[p])
+        me = LocalStation(ctx.macs[p])
         if flavour == "apdu":
             b_send(ctx, p, op[2], routeref.build_npdu(b"\x10\x08", snet=op[3], sadr=REMOTE_MAC), me)
         elif flavour == "who-is-router":
@@ -688,7 +738,7 @@ def b_traffic(ctx, node, op, tag, frames, judge_it):
     bad = None
     for fr in frames:
         port = ctx.lans.index(fr.net)
-        if mac_of(fr.src) != NODE_MACS[port].hex():
+        if mac_of(fr.src) != ctx.macs[port].hex():
             continue                                    # put there by the tester
         n = routeref.parse_npdu(fr.data)
         if n is None:
@@ -717,14 +767,16 @@ def b_traffic(ctx, node, op, tag, frames, judge_it):
         if bad is not None or not judge_it:
             continue
         port, dst, n = occ[0]
+        # the packet of this very operation, handed over while a path was known, was never held
+        what = "traffic" if (t == tag and expect == "forward") else "held-traffic"
         if not first or len(occ) > 1:
-            bad = ("held-traffic-sent-more-than-once", info)
+            bad = (what + "-sent-more-than-once", info)
         elif not hops:
-            bad = ("held-traffic-sent-via-router-the-reference-does-not-know", info)
+            bad = (what + "-sent-via-router-the-reference-does-not-know", info)
         elif (port, dst) not in hops:
-            bad = ("held-traffic-sent-on-the-wrong-port" if dst in [h[1] for h in hops] else "held-traffic-sent-to-wrong-next-hop", info)
+            bad = (what + ("-sent-on-the-wrong-port" if dst in [h[1] for h in hops] else "-sent-to-wrong-next-hop"), info)
         elif n["dnet"] != d or n["dadr"] != PROBE_MAC:
-            bad = ("held-traffic-destination-address-altered", dict(info, dnet_on_wire=n["dnet"], dadr_on_wire=(n["dadr"] or b"").hex()))
+            bad = (what + "-destination-address-altered", dict(info, dnet_on_wire=n["dnet"], dadr_on_wire=(n["dadr"] or b"").hex()))
     label = None
     if op[0] == "send":
         d = op[1]
@@ -813,7 +865,8 @@ def b_probe(ctx, node, dnet, broadcast, serial, asked_before=False):
 def b_run(variant, u, hist, probes=True, broadcast_probes=False, probed=()):
     """Fresh node, replay the history as frames / API calls, judge the last operation, then probe.
     probed: hashes of canonical states this shard has already probed (a state is probed at its first visit in every shard,
-    a later transition into the same state only has its last operation judged).
+    a later transition into the same state only has its last operation judged -- unless the history contains traffic sent
+    over a known path: then it is probed at every visit).
     Returns (bad or None, canonical state, NodeRef, op class, observation trace, swallowed)."""
     ctx = b_build(variant, u)
     node = NodeRef(VARIANTS[variant])
@@ -861,12 +914,17 @@ def b_run(variant, u, hist, probes=True, broadcast_probes=False, probed=()):
              # what the node holds back per destination network (how many packets), and what the reference says is held
              tuple(sorted(((k, len(v)) for k, v in ctx.nsap.pending_nets.items()), key=repr)),
              node.held_counts(),
+             # the destination networks the application has sent traffic to over a known path (an account of the history:
+             # nothing in the node is supposed to change by it, so nothing read from the node could keep these apart)
+             node.sent_over_known_path(),
              cache_canon(cache),
              # over-approximation on purpose: every scalar attribute of the adapters, the access point and the cache
              # records, so that a field added by a change to the code (a memo, a counter) keeps states apart
              tuple(generic_canon(a, skip=GENERIC_SKIP) for a in ctx.nsap.adapters.values()),
              generic_canon(cache, skip=GENERIC_SKIP))
-    if bad is None and probes and (not probed or h64(("B", u["name"], canon)) not in probed):
+    # a history in which traffic already went out over a known path is probed at every visit: whatever the node remembers
+    # from having sent is exactly what no canonical form of the tables can show, so "same state, probed before" does not hold
+    if bad is None and probes and (not probed or node.sent_known or h64(("B", u["name"], canon)) not in probed):
         serial = 0
         for broadcast in ((False, True) if broadcast_probes else (False,)):
             for d in list(u["dnets"]) + [EXTRA_DNET]:
@@ -881,12 +939,19 @@ def b_run(variant, u, hist, probes=True, broadcast_probes=False, probed=()):
 
 
 def b_sends(u, node):
-    """Application traffic as part of the history: one packet to a destination network the reference knows no path to
-    (it will be held), as long as fewer than u['held'] packets are held in all.  Packets to networks with a known path
-    do not change the state and are what the probes of every state already are."""
-    if node.held_total() >= u.get("held", 0):
-        return []
-    return [("send", d) for d in u["dnets"] if not node.next_hops(d)]
+    """Application traffic as part of the history.  One packet to a destination network the reference knows no path to
+    (it will be held), as long as fewer than u['held'] packets are held in all.  In universes with `known_sends` also one
+    packet to a destination network with a known path: it leaves at once and nothing the statement talks about changes,
+    but it happened BEFORE what the history learns or forgets next, and the traffic sent after that (later sends, the
+    probes) still has to follow the then current knowledge; the state keeps the account of which networks were sent to.
+    (Not offered while the reference says packets for that network are still held: only behind an already reported
+    held-traffic failure.)"""
+    ops = []
+    if u.get("known_sends"):
+        ops += [("send", d) for d in u["dnets"] if node.next_hops(d) and not node.held(d)]
+    if node.held_total() < u.get("held", 0):
+        ops += [("send", d) for d in u["dnets"] if not node.next_hops(d)]
+    return ops
 
 
 def b_expand(item, deadline):
@@ -940,7 +1005,7 @@ def b_expand(item, deadline):
                 acc.add_info("B failing states expanded nevertheless (only held traffic wrong)", 1)
             else:
                 if op[0] == "send":
-                    acc.outcome("B:send:%s" % "+".join(e[1] for e in obs if e[0] == "traffic"))
+                    acc.outcome("B:%s:%s" % (cls, "+".join(e[1] for e in obs if e[0] == "traffic")))
                 else:
                     acc.outcome("B:%s:%s" % (cls, "changes" if n2.routes.table != node.routes.table or op[0] == "renumber" else "no-effect"))
                     if op[0] == "sadr":
@@ -980,14 +1045,20 @@ def plans(tier, seed):
     if tier == "quick":
         a = [universe("2p-3r-4d-sets<=2", (1, 2), (1, 2, 3), 3, (10, 11, 12, 13), 2, seed, depth=4),
              universe("2p(1 unknown)-2r-3d-closure", (1, None), (1, 2, 3), 2, (10, 11, 12), None, seed, depth=40)]
-        b = [(universe("wire-2r-2d-held<=2-closure", (), (1, 2, 3), 2, (10, 11), None, seed, depth=40, held=2,
+        b = [(universe("wire-2r-1d-held<=2-sends-closure", (), (1, 2, 3), 2, (10,), None, seed, depth=40, held=2, sadr=SADR_ALL,
+                       shared_macs=True, known_sends=True), False),
+             (universe("wire-2r-2d-held<=2-closure", (), (1, 2, 3), 2, (10, 11), None, seed, depth=40, held=2,
                        variants=("both-configured",), sadr=SADR_ALL), False),
-             (universe("wire-3r-3d-sets<=2", (), (1, 2, 3), 3, (10, 11, 12), 2, seed, depth=3, held=2, sadr=SADR_TWO), False)]
+             (universe("wire-3r-3d-sets<=2", (), (1, 2, 3), 3, (10, 11, 12), 2, seed, depth=3, held=2, sadr=SADR_TWO,
+                       shared_macs=True, known_sends=True), False)]
     else:
         a = [universe("2p(1 unknown)-2r-3d-closure", (1, None), (1, 2, 3), 2, (10, 11, 12), None, seed, depth=60),
              universe("2p-3r-3d-closure", (1, 2), (1, 2, 3), 3, (10, 11, 12), None, seed, depth=60),
              universe("2p-3r-4d-all-subsets", (1, 2), (1, 2, 3), 3, (10, 11, 12, 13), None, seed, depth=5)]
-        b = [(universe("wire-3r-4d-all-subsets", (), (1, 2, 3), 3, (10, 11, 12, 13), None, seed, depth=3, held=2), True),
+        b = [(universe("wire-3r-4d-all-subsets", (), (1, 2, 3), 3, (10, 11, 12, 13), None, seed, depth=3, held=2,
+                       shared_macs=True, known_sends=True), True),
+             (universe("wire-3r-1d-held<=2-sends-closure", (), (1, 2, 3), 3, (10,), None, seed, depth=60, held=2, sadr=SADR_ALL,
+                       shared_macs=True, known_sends=True), False),
              (universe("wire-2r-2d-held<=2-closure", (), (1, 2, 3), 2, (10, 11), None, seed, depth=60, held=2, sadr=SADR_ALL), False),
              (universe("wire-2r-3d-closure", (), (1, 2, 3), 2, (10, 11, 12), None, seed, depth=60, held=0, sadr=SADR_CORE), False)]
     return a, b
